@@ -201,7 +201,7 @@ package server
 // the purge has been carried out when the handler answers, for exactly the key and cache named in the request
 //@   ensures [purged] queryParam(c, "key") != "" && queryParam(c, "cache") != "" && cache.defaultDispatchers.m.dom[box(queryParam(c, "cache"))] ==>
 //@                      !shardOfText(unbox(cache.defaultDispatchers.m.vals[box(queryParam(c, "cache"))], "*cache.dispatcher"), queryParam(c, "key")).cache.dom[box(queryParam(c, "key"))]
-//@   ensures [purged-all] queryParam(c, "key") != "" && queryParam(c, "cache") == "" ==> forall k any :: cache.defaultDispatchers.m.dom[k] ==>
+//@   ensures [purged-all] queryParam(c, "key") != "" && queryParam(c, "cache") == "" ==> forall k any {cache.defaultDispatchers.m.dom[k]} :: cache.defaultDispatchers.m.dom[k] ==>
 //@                      !shardOfText(unbox(cache.defaultDispatchers.m.vals[k], "*cache.dispatcher"), queryParam(c, "key")).cache.dom[box(queryParam(c, "key"))]
 //@   precall github.com/vicanso/pike/cache.RemoveHTTPCache#0 [args] $arg0 == queryParam(c, "cache") && b2s(contents($arg1)) == queryParam(c, "key")
 
@@ -236,11 +236,11 @@ package server
 //@   precall github.com/vicanso/pike/upstream.upstreamServer.Proxy#0 [added-headers] forall k string :: k != "If-Modified-Since" && k != "If-None-Match" && k != "Range" && k != "If-Range" && k != "Accept-Encoding" && old(vlen(hdr(l.RequestHeader)[k])) == 0
 //@                      && l.RequestHeader != old(c.Request.Header) ==> $hdr[c.Request.Header][k] == old($hdr[c.Request.Header][k])
 // C15: what is restored before control leaves pike's code (error return, or the rest of the chain)
-//@   precall github.com/vicanso/elton.Context.Next#0 [restored] old(addsNoTrigger(l)) && l.RequestHeader != old(c.Request.Header) && l.ResponseHeader != c.Request.Header ==> hget($hdr[c.Request.Header], "If-Modified-Since") == old(hget($hdr[c.Request.Header], "If-Modified-Since"))
-//@                      && hget($hdr[c.Request.Header], "If-None-Match") == old(hget($hdr[c.Request.Header], "If-None-Match"))
-//@                      && hget($hdr[c.Request.Header], "Range") == old(hget($hdr[c.Request.Header], "Range"))
-//@                      && hget($hdr[c.Request.Header], "If-Range") == old(hget($hdr[c.Request.Header], "If-Range"))
-//@                      && hget($hdr[c.Request.Header], "Accept-Encoding") == old(hget($hdr[c.Request.Header], "Accept-Encoding"))
+//@   precall github.com/vicanso/elton.Context.Next#0 [restored-ims] old(addsNoTrigger(l)) && l.RequestHeader != old(c.Request.Header) && l.ResponseHeader != c.Request.Header ==> hget($hdr[c.Request.Header], "If-Modified-Since") == old(hget($hdr[c.Request.Header], "If-Modified-Since"))
+//@   precall github.com/vicanso/elton.Context.Next#0 [restored-inm] old(addsNoTrigger(l)) && l.RequestHeader != old(c.Request.Header) && l.ResponseHeader != c.Request.Header ==> hget($hdr[c.Request.Header], "If-None-Match") == old(hget($hdr[c.Request.Header], "If-None-Match"))
+//@   precall github.com/vicanso/elton.Context.Next#0 [restored-range] old(addsNoTrigger(l)) && l.RequestHeader != old(c.Request.Header) && l.ResponseHeader != c.Request.Header ==> hget($hdr[c.Request.Header], "Range") == old(hget($hdr[c.Request.Header], "Range"))
+//@   precall github.com/vicanso/elton.Context.Next#0 [restored-ifrange] old(addsNoTrigger(l)) && l.RequestHeader != old(c.Request.Header) && l.ResponseHeader != c.Request.Header ==> hget($hdr[c.Request.Header], "If-Range") == old(hget($hdr[c.Request.Header], "If-Range"))
+//@   precall github.com/vicanso/elton.Context.Next#0 [restored-ae] old(addsNoTrigger(l)) && l.RequestHeader != old(c.Request.Header) && l.ResponseHeader != c.Request.Header ==> hget($hdr[c.Request.Header], "Accept-Encoding") == old(hget($hdr[c.Request.Header], "Accept-Encoding"))
 //@   precall github.com/vicanso/elton.Context.Next#0 [path-restored] (old(c.Request.URL.Path) != "" ==> c.Request.URL.Path == old(c.Request.URL.Path)) && (old(c.Request.URL.RawQuery) != "" ==> c.Request.URL.RawQuery == old(c.Request.URL.RawQuery))
 // C03: the lifetime is only evaluated for fetching requests and only a positive one is recorded
 //@   precall github.com/vicanso/elton.Context.Next#0 [maxage] maxAgeOf(c) != old(maxAgeOf(c)) ==> status == cache.StatusFetching && maxAgeOf(c) > 0
